@@ -104,6 +104,13 @@ class Run(object):
             self.violation(rule, file, line, function, construct, why)
         return bool(cond)
 
+    def shape(self, cond, rule, file, function, what):
+        """shape recognition: when the analyser cannot find the construct a rule reasons about, it cannot decide
+        (exit 2) - this is never reported as a violation"""
+        if not cond:
+            raise AnalysisError("%s: %s:%s - cannot recognise %s (refactored? the rule needs updating)" % (rule, file, function, what))
+        return True
+
     def floor(self, rule, minimum, what="instances"):
         n = len(self.instances.get(rule, []))
         if n < minimum:
